@@ -26,10 +26,6 @@ pub struct AbiType { _p: u8 }
 // A-DERIVE: #[derive(Clone, Copy, Default, Eq, Hash, PartialEq)] on U256Wrapper is structural
 #[derive(Clone, Copy, PartialEq, Eq)]
 //@extract file=src/utility.rs path="struct U256Wrapper" kind=type
-//@rw R-ATTR
-//@old
-#[repr(transparent)]
-//@new
 //@end
 impl U256Wrapper {
     pub open spec fn n(self) -> nat { u(self.0) }
